@@ -2,6 +2,7 @@ import SwiftMT.Json
 import SwiftMT.Stage
 import SwiftMT.Generated.Stages
 import SwiftMT.Generated.Shapes
+import SwiftMT.Generated.RuleTables
 /-
 C04 — models of the network-rule functions (`validate_cN_*` in src/messages/mt*.rs).
 
@@ -51,6 +52,29 @@ def strOf (j : Option J) (k : String) : Text := (j.bind (·.strAt k)).getD []
 
 abbrev Code := String
 
+/-- the variant key under which a flattened option-enum member is present (`"59A"`, `"59F"`, `"59"`) -/
+def fieldTag (sname : String) (j : J) (name : String) : Option String :=
+  match structDecl sname with
+  | none => none
+  | some d =>
+    match d.fields.find? (·.name == name) with
+    | some f => if f.flatten then (j.firstOf (enumKeys f.ty)).map (·.1) else none
+    | none => none
+
+/-- a `const NAME: &[&str]` of src/messages/mtNNN.rs (regenerated, T5r) -/
+def tbl (ty : Nat) (name : String) : List Text :=
+  match Generated.RuleTables.lists.find? (fun p => p.1 == ty && p.2.1 == name) with
+  | some p => p.2.2
+  | none => []
+def pairTbl (ty : Nat) (name : String) : List (Text × List Text) :=
+  match Generated.RuleTables.pairs.find? (fun p => p.1 == ty && p.2.1 == name) with
+  | some p => p.2.2
+  | none => []
+def numConst (ty : Nat) (name : String) : Nat :=
+  match Generated.RuleTables.nums.find? (fun p => p.1 == ty && p.2.1 == name) with
+  | some p => p.2.2
+  | none => 0
+
 /-! ### MT110 -/
 structure V110 where
   cheques : List Text            -- currency of field 32a per cheque
@@ -79,7 +103,7 @@ def code72 (line : Text) : Option Text :=
       if rest.isEmpty then none
       else some (upperAsciiT (rest.takeWhile (fun c => !isWs c)))
   | _ => none
-def special72 : List Text := ["REJT".toList, "RETN".toList]
+def special72 : List Text := tbl 200 "SPECIAL_72_CODES"
 def r200_t80 (v : V200) : List Code := ((v.lines72.filterMap code72).filter (special72.contains ·)).map (fun _ => "T80")
 
 /-! ### MT202 / MT205 -/
@@ -133,7 +157,7 @@ def r204_c1 (v : V204) : Option Code :=
 def distinctCount (l : List Text) : Nat := l.eraseDups.length
 def r204_c2 (v : V204) : Option Code :=
   if v.txs.isEmpty then none else if distinctCount (v.txs.map (·.ccy)) > 1 then some "C02" else none
-def r204_c3 (v : V204) : Option Code := if v.txs.length > 10 then some "T10" else none
+def r204_c3 (v : V204) : Option Code := if v.txs.length > numConst 204 "MAX_SEQUENCE_B_OCCURRENCES" then some "T10" else none
 
 /-! ### MT210 -/
 structure Tx210 where
@@ -146,7 +170,7 @@ def view210 (m : J) : V210 :=
   ⟨(fieldList "MT210" m "transactions").map (fun t =>
     ⟨has "MT210Transaction" t "ordering_customer", has "MT210Transaction" t "ordering_institution",
      strOf (field "MT210Transaction" t "currency_amount") "currency"⟩)⟩
-def r210_c1 (v : V210) : Option Code := if v.txs.length > 10 then some "T10" else none
+def r210_c1 (v : V210) : Option Code := if v.txs.length > numConst 210 "MAX_REPETITIVE_SEQUENCES" then some "T10" else none
 def r210_c2 (v : V210) : List Code :=
   v.txs.flatMap (fun t => if t.has50 && t.has52 then ["C06"] else if !t.has50 && !t.has52 then ["C06"] else [])
 def r210_c3 (v : V210) : Option Code :=
@@ -176,7 +200,7 @@ def view920 (m : J) : V920 :=
   ⟨(fieldList "MT920" m "sequence").map (fun s =>
     ⟨strOf (field "MT920Sequence" s "field_12") "type_code",
      (field "MT920Sequence" s "floor_limit_debit").map f34, (field "MT920Sequence" s "floor_limit_credit").map f34⟩)⟩
-def types920 : List Text := ["940".toList, "941".toList, "942".toList, "950".toList]
+def types920 : List Text := tbl 920 "VALID_MESSAGE_TYPES"
 def r920_t88 (v : V920) : List Code := v.seqs.flatMap (fun s => if types920.contains s.type12 then [] else ["T88"])
 def r920_c1 (v : V920) : List Code := v.seqs.flatMap (fun s => if s.type12 == "942".toList && s.debit.isNone then ["C22"] else [])
 def r920_c2 (v : V920) : List Code :=
@@ -241,7 +265,7 @@ def view935 (m : J) : V935 :=
 def r935_c1 (v : V935) : Option Code := if v.seqs.length == 0 then some "T10" else if v.seqs.length > 10 then some "T10" else none
 def r935_c2 (v : V935) : List Code :=
   v.seqs.flatMap (fun s => if s.has23 && s.has25 then ["C83"] else if !s.has23 && !s.has25 then ["C83"] else [])
-def functions23 : List Text := ["BASE", "CALL", "COMMERCIAL", "CURRENT", "DEPOSIT", "NOTICE", "PRIME"].map String.toList
+def functions23 : List Text := tbl 935 "VALID_23_FUNCTION_CODES"
 def r935_f23one (s : Seq935) : List Code :=
   if !s.has23 then [] else
   let value := s.value23
@@ -322,7 +346,7 @@ def cancelCode (v : V192) : Option Text :=
       | _ => none
     else none
   | none => none
-def codes79 : List Text := ["AGNT", "AM09", "COVR", "CURR", "CUST", "CUTA", "DUPL", "FRAD", "TECH", "UPAY"].map String.toList
+def codes79 : List Text := tbl 192 "MT192_VALID_79_CODES"
 def r192_c1 (v : V192) : Option Code := if !v.has79 then some "C25" else none
 def r192_codes (v : V192) : List Code :=
   match cancelCode v with
@@ -342,6 +366,103 @@ structure V292 where
 def view292 (sname : String) (m : J) : V292 := ⟨has sname m "field_79", !(extraKeys sname m).isEmpty⟩
 def r292_c1 (v : V292) : Option Code := if !v.has79 && !v.hasOriginal then some "C25" else none
 def r296_c1 (v : V292) : Option Code := if v.has79 && v.hasOriginal then some "C31" else none
+
+/-! ### MT103 -/
+structure E23 where
+  code : Text
+  hasInfo : Bool
+structure V103 where
+  b23 : Text
+  e23 : Option (List E23)
+  ccy32a : Text
+  ccy33b : Option Text
+  has36 : Bool
+  has53 : Bool
+  has54 : Bool
+  has55 : Bool
+  has56 : Bool
+  has57 : Bool
+  code71a : Text
+  has71f : Bool            -- `field_71f.is_some() && !is_empty()`
+  ccy71g : Option Text
+  acct59 : Bool            -- the beneficiary carries an account (options no-letter and A)
+def e23list (sname : String) (m : J) (name : String) : Option (List E23) :=
+  (field sname m name).map (fun a => a.elems.map (fun e => ⟨(e.strAt "instruction_code").getD [], (e.getSome "additional_info").isSome⟩))
+def view103 (m : J) : V103 :=
+  let f59 := field "MT103" m "field_59"
+  { b23 := strOf (field "MT103" m "field_23b") "instruction_code",
+    e23 := e23list "MT103" m "field_23e",
+    ccy32a := strOf (field "MT103" m "field_32a") "currency",
+    ccy33b := (field "MT103" m "field_33b").map (fun f => (f.strAt "currency").getD []),
+    has36 := has "MT103" m "field_36", has53 := has "MT103" m "field_53", has54 := has "MT103" m "field_54",
+    has55 := has "MT103" m "field_55", has56 := has "MT103" m "field_56", has57 := has "MT103" m "field_57",
+    code71a := strOf (field "MT103" m "field_71a") "code",
+    has71f := !(fieldList "MT103" m "field_71f").isEmpty,
+    ccy71g := (field "MT103" m "field_71g").map (fun f => (f.strAt "currency").getD []),
+    acct59 := match fieldTag "MT103" m "field_59" with
+      | some "59F" => false
+      | _ => (f59.bind (·.getSome "account")).isSome }
+
+def r103_23b (v : V103) : Option Code := if (tbl 103 "MT103_VALID_23B_CODES").contains v.b23 then none else some "T36"
+
+def positionOf (l : List Text) (c : Text) : Option Nat := l.findIdx? (· == c)
+/-- first adjacent pair that is out of order (the loop breaks after reporting one) -/
+def outOfOrder : List Nat → Bool
+  | a :: b :: rest => b < a || outOfOrder (b :: rest)
+  | _ => false
+/-- the per-element pass of `validate_field_23e` with the running `seen_codes` set -/
+def e23Loop (valid withInfo : List Text) : List E23 → List Text → List Code
+  | [], _ => []
+  | e :: rest, seen =>
+    (if valid.contains e.code then [] else ["T48"]) ++
+    (if e.hasInfo && !(withInfo.contains e.code) then ["D97"] else []) ++
+    (if seen.contains e.code then ["E46"] else []) ++
+    e23Loop valid withInfo rest (e.code :: seen)
+def r103_23e (v : V103) : List Code :=
+  match v.e23 with
+  | none => []
+  | some es =>
+    let order := tbl 103 "FIELD_23E_CODE_ORDER"
+    e23Loop (tbl 103 "MT103_VALID_23E_CODES") (tbl 103 "CODES_WITH_ADDITIONAL_INFO") es [] ++
+    (if outOfOrder (es.filterMap (fun e => positionOf order e.code)) then ["D98"] else []) ++
+    es.flatMap (fun e => (pairTbl 103 "INVALID_23E_COMBINATIONS").flatMap (fun p =>
+      if e.code == p.1 then (es.filter (fun o => p.2.contains o.code)).map (fun _ => "D67") else []))
+def r103_c1 (v : V103) : Option Code :=
+  match v.ccy33b with
+  | some c33 => if v.ccy32a != c33 then (if !v.has36 then some "D75" else none) else (if v.has36 then some "D75" else none)
+  | none => if v.has36 then some "D75" else none
+def r103_c3 (v : V103) : List Code :=
+  if v.b23 == "SPRI".toList then
+    (match v.e23 with
+     | some es => (es.filter (fun e => !((tbl 103 "REMIT_SPRI_ALLOWED_23E").contains e.code))).map (fun _ => "E01")
+     | none => [])
+  else if v.b23 == "SSTD".toList || v.b23 == "SPAY".toList then (if v.e23.isSome then ["E02"] else [])
+  else []
+def r103_c4 (v : V103) : Option Code := if v.has55 && (!v.has53 || !v.has54) then some "E06" else none
+def r103_c5 (v : V103) : Option Code := if v.has56 && !v.has57 then some "C81" else none
+def r103_c6 (v : V103) : Option Code := if v.b23 == "SPRI".toList && v.has56 then some "E16" else none
+def r103_c7 (v : V103) : List Code :=
+  if v.code71a == "OUR".toList then (if v.has71f then ["E13"] else [])
+  else if v.code71a == "SHA".toList then (if v.ccy71g.isSome then ["D50"] else [])
+  else if v.code71a == "BEN".toList then (if !v.has71f then ["E15"] else []) ++ (if v.ccy71g.isSome then ["E15"] else [])
+  else []
+def r103_c8 (v : V103) : Option Code := if (v.has71f || v.ccy71g.isSome) && v.ccy33b.isNone then some "D51" else none
+def r103_c9 (v : V103) : Option Code :=
+  match v.ccy71g with
+  | some c => if v.ccy32a != c then some "C02" else none
+  | none => none
+def r103_c13 (v : V103) : Option Code :=
+  match v.e23 with
+  | some es => if es.any (fun e => e.code == "CHQB".toList) && v.acct59 then some "E18" else none
+  | none => none
+def r103_c16 (v : V103) : List Code :=
+  if !v.has56 then (match v.e23 with
+    | some es => (es.filter (fun e => e.code == "TELI".toList || e.code == "PHOI".toList)).map (fun _ => "E44")
+    | none => []) else []
+def r103_c17 (v : V103) : List Code :=
+  if !v.has57 then (match v.e23 with
+    | some es => (es.filter (fun e => e.code == "TELE".toList || e.code == "PHON".toList)).map (fun _ => "E45")
+    | none => []) else []
 
 /-! ### aggregation: the regenerated stage list of each type, instantiated with the rule models by name -/
 
@@ -380,6 +501,13 @@ def rs192 : RuleSet V192 := [("validate_c1_field_79_or_copy", .opt r192_c1 true)
 def rs196 : RuleSet V196 := [("validate_c1_field_79_or_copy", .opt r196_c1 true)]
 def rs292 : RuleSet V292 := [("validate_c1_field_79_or_original_fields", .opt r292_c1 true)]
 def rs296 : RuleSet V292 := [("validate_c1_field_79_or_copy", .opt r296_c1 true)]
+def rs103 : RuleSet V103 := [("validate_field_23b", .opt r103_23b true), ("validate_field_23e", .vec r103_23e true),
+  ("validate_c1_currency_exchange", .opt r103_c1 true), ("validate_c3_bank_op_instruction_codes", .vec r103_c3 true),
+  ("validate_c4_third_reimbursement", .opt r103_c4 true), ("validate_c5_intermediary", .opt r103_c5 true),
+  ("validate_c6_field_56_restrictions", .opt r103_c6 true), ("validate_c7_charges", .vec r103_c7 true),
+  ("validate_c8_charges_instructed_amount", .opt r103_c8 true), ("validate_c9_receiver_charges_currency", .opt r103_c9 true),
+  ("validate_c13_chqb_beneficiary_account", .opt r103_c13 true), ("validate_c16_teli_phoi_restriction", .vec r103_c16 true),
+  ("validate_c17_tele_phon_restriction", .vec r103_c17 false)]
 
 /-- what the driver answers for `val <type> <json>`: the model's code list, or `none` for an unmodelled type -/
 def validateJson (ty : Nat) (m : J) : Option (List Code) :=
@@ -401,6 +529,7 @@ def validateJson (ty : Nat) (m : J) : Option (List Code) :=
   | 196 => some (rs196.validate ⟨()⟩)
   | 292 => some (rs292.validate (view292 "MT292" m))
   | 296 => some (rs296.validate (view292 "MT296" m))
+  | 103 => some (rs103.validate (view103 m))
   | other =>
     -- a type whose regenerated `validate_network_rules` has no stage at all reports nothing
     if (Generated.Stages.table.any (·.1 == other)) && (stagesOf other).isEmpty then some [] else none
@@ -409,6 +538,6 @@ def validateJson (ty : Nat) (m : J) : Option (List Code) :=
 def modelled : List (Nat × List (String × StageShape)) :=
   [(110, rs110.shapes), (200, rs200.shapes), (202, rs202.shapes), (204, rs204.shapes), (205, rs205.shapes), (210, rs210.shapes),
    (910, rs910.shapes), (920, rs920.shapes), (941, rs941.shapes), (950, rs950.shapes), (935, rs935.shapes), (940, rs940.shapes),
-   (942, rs942.shapes), (192, rs192.shapes), (196, rs196.shapes), (292, rs292.shapes), (296, rs296.shapes)]
+   (942, rs942.shapes), (192, rs192.shapes), (196, rs196.shapes), (292, rs292.shapes), (296, rs296.shapes), (103, rs103.shapes)]
 
 end SwiftMT.Rules
